@@ -12,7 +12,8 @@ INFO = {
         strengthening="GFIPrograms.tla: program fa passes its argument to the Cond by keyword (SiteKw); the recorder reports exceptions of the code under test as violations"),
     "C02_cond_generate_score_weight": dict(property="C02", change="Cond.generate returns -score of the visible branch instead of the branch's generate weight",
         needs="a Cond sub-call constrained on a strict subset of the visible branch's addresses",
-        first_result="caught", strengthening=""),
+        first_result="MISSED by the first C02 quick tier (the only Cond with two-address branches, program fa, was in the thorough corpus only)",
+        strengthening="fa moved into the C02 quick corpus"),
     "C03_cond_discard_new_check": dict(property="C03", change="Cond.update selects the discard with the NEW condition",
         needs="an update that flips the condition of a Cond whose hidden branch holds different values (simulated / partially constrained trace); discard or round trip inspected",
         first_result="caught", strengthening=""),
@@ -41,6 +42,41 @@ INFO = {
         needs="a custom extension proposal that does not propose every latent of the step model",
         first_result="MISSED by the first C10 check (the custom proposal covered every latent)",
         strengthening="SMC.tla: second latent u that no custom proposal proposes (WithU); the harness replays those pipelines"),
+    "C11_lane_rb_first_axis": dict(property="C11", change="_flip_lane_rb_estimate loops over len(b) instead of the flattened lane count",
+        needs="a flip_enum / flip_mvd site whose probability argument has rank >= 2 (lanes beyond the first axis contribute no tangent)",
+        first_result="MISSED by the first C11 check by construction (ADEV.tla had scalar sites only); the confirmation run used the strengthened check",
+        strengthening="ADEVVec.tla (vector / matrix flip sites, M = 2, 4 lanes, exact sum over all outcomes of prob * tangent) and c11.run_batched_sites"),
+    "C12_resample_stale_diag_weights": dict(property="C12", change="resample draws the ancestors from diagnostic_weights instead of log_weights",
+        needs="a collection whose diagnostic_weights are not the normalised log_weights (second resample, init_csmc, hand-built collection)",
+        first_result="caught", strengthening=""),
+    "C13_categorical_axis0_shift": dict(property="C13", change="categorical shifts the logits by their maximum over axis 0 instead of the category axis",
+        needs="categorical with logits that have a leading batch axis",
+        first_result="MISSED by the first C13 check (every table row had unbatched parameters)",
+        strengthening="Dists.tla: rows with batched parameters (categorical logits matrix, vector normal / bernoulli); the sampler screen draws from batched logits"),
+    "C14_guard_after_bind_params": dict(property="C14", change="the seed guard searches the dict returned by get_bind_params (custom_jvp's call_jaxpr already popped)",
+        needs="a sampling site inside a custom_jvp / custom_vjp function, seeded",
+        first_result="caught", strengthening=""),
+    "C15_jvp_flag_last_operand": dict(property="C15", change="the 'no tangent' shortcut of the default JVP rule looks at the last operand only",
+        needs="a primitive whose differentiable operand precedes an integer / boolean operand (dynamic index, take, clip with int bounds)",
+        first_result="MISSED by the first C15 check by construction (no primitive with a trailing integer operand in the corpus); the confirmation run used the strengthened check",
+        strengthening="ADEVDet.tla: operations dynidx (x[argmax x]), take21 (jnp.take with an index array), clip11 (integer bounds) with their exact dual-number semantics"),
+    "C16_insel_short_circuit": dict(property="C16", change="InSel.match returns (False, NoneSel()) as soon as one operand's hit flag is False",
+        needs="an intersection with the complement of a hierarchical selection (~sel((a, b)), ~sel({a: sel(b)})), matched at the prefix",
+        first_result="the first quick tier would have MISSED it (depth-1 expressions over atoms without complements of hierarchical selections; the depth-2 thorough model contains it) - found by inspection, strengthened before the confirmation run",
+        strengthening="Selection.tla: SmallAtoms contains not(tup(a,b)) and not(dict(a: str(b))), so depth-1 and/or range over them"),
+    "C17_mvn_reparam_transpose": dict(property="C17", change="MultivariateNormalREPARAM reparameterises with eps @ L instead of L @ eps",
+        needs="multivariate_normal_reparam with a non-diagonal Cholesky factor inside an expectation (full-covariance family)",
+        first_result="the first C17 check would have MISSED it (scalar and mean-field families only) - found by inspection, strengthened before the confirmation run",
+        strengthening="c17: 2-d Gaussian target with a full-covariance family, non-diagonal Cholesky factor, scripted noise; objective compared with log p(y, m + L eps) - log q"),
+    "C18_accepts_double_burn_in": dict(property="C18", change="chain() applies the burn-in offset twice to the accept flags",
+        needs="burn_in > 0 and a kernel whose accept flags vary over the steps",
+        first_result="caught", strengthening=""),
+    "C19_scan_merge_first_write_wins": dict(property="C19", change="_nested_dict_merge keeps the first write when a scan's collected state meets an existing name",
+        needs="a name saved before a scan and again inside the scan body (same namespace)",
+        first_result="caught", strengthening=""),
+    "C20_smoother_cov_filtered": dict(property="C20", change="the RTS covariance recursion uses the next filtered covariance instead of the next smoothed one",
+        needs="sequence length T >= 3 (smoothed covariances at t <= T-3)",
+        first_result="caught", strengthening=""),
 }
 
 
